@@ -63,7 +63,15 @@ D6 == [prolog |-> <<>>, nodes |-> <<
   RootN, El(1, "a"), At(2, "x", "2"), El(2, "b"), At(4, "x", "1"), Tx(4, "1"), El(2, "b"), Tx(7, "2"),
   El(2, "c"), At(9, "x", "12"), Tx(9, "ab"), El(2, "b"), At(12, "x", "2"), TxC(12, <<32, 49, 50, 32>>) >>]
 
-DocSeq == IF Tier = "tiny" THEN <<D1>> ELSE <<D1, D2, D3, D4, D5, D6>>
+\* <a xml:lang="en"><b xml:lang="en-US">1<c/></b><b xml:lang="">2</b><c xml:lang="fr"><!--c--></c>s</a>
+LangAt(p, v) == Nd("attr", p, Cp("xml"), Cp("lang"), XmlNsUri, IF v = "" THEN <<>> ELSE Cp(v))
+D7 == [prolog |-> <<>>, nodes |-> <<
+  RootN, El(1, "a"), LangAt(2, "en"), El(2, "b"), LangAt(4, "en-US"), Tx(4, "1"), El(4, "c"), El(2, "b"), LangAt(8, ""),
+  Tx(8, "2"), El(2, "c"), LangAt(11, "fr"), Cm(11, "c"), Tx(2, "s") >>]
+
+\* D7 is used by the family "ctx" only
+DocSeq == IF Tier = "tiny" THEN <<D1>> ELSE <<D1, D2, D3, D4, D5, D6, D7>>
+MainDocs == IF Tier = "tiny" THEN {1} ELSE 1..6
 ASSUME \A k \in 1..Len(DocSeq) : TreeOk(DocSeq[k])
 
 (***************************************************************************)
@@ -147,7 +155,9 @@ FnApps(P) ==
 CtxPreds ==
   { Bin("=", Fn0("name"), StrL("b")), Bin("=", Fn0("local-name"), StrL("p")), Bin("=", Fn0("string"), StrL("12")),
     Bin("=", Fn0("string-length"), NumL(2)), Bin("=", Fn0("normalize-space"), StrL("12")), Bin("=", Fn0("number"), NumL(12)),
-    Bin("=", Fn0("position"), Fn0("last")), Fn1("lang", StrL("en")), Bin("=", Fn0("namespace-uri"), [t |-> "str", v |-> <<>>]) }
+    Bin("=", Fn0("position"), Fn0("last")), Fn1("lang", StrL("en")), Bin("=", Fn0("namespace-uri"), [t |-> "str", v |-> <<>>]),
+    Fn1("lang", StrL("EN")), Fn1("lang", StrL("fr")), Fn1("lang", StrL("en-US")), Fn1("lang", StrL("e")),
+    Bin("=", Fn0("name"), [t |-> "str", v |-> Cp("xml") \o Cp(":") \o Cp("lang")]) }
 
 \* operator precedence / associativity family (C08)
 Atoms == { NumL(1), NumL(2), NumL(3) }
@@ -157,9 +167,10 @@ Families == IF Tier = "tiny" THEN {"p1", "un", "fl"}
             ELSE {"p1", "p2", "un", "fl", "cmp", "fn", "ctx", "ar", "ar3"}
 
 Seeds ==
-  { [fam |-> "p1", d |-> k, a |-> ax] : k \in 1..Len(DocSeq), ax \in UsedAxes }
-  \cup (IF "p2" \in Families THEN { [fam |-> "p2", d |-> k, a |-> ax] : k \in 1..Len(DocSeq), ax \in UsedAxes } ELSE {})
-  \cup { [fam |-> f, d |-> k, a |-> "-"] : f \in Families \ {"p1", "p2", "ar", "ar3"}, k \in 1..Len(DocSeq) }
+  { [fam |-> "p1", d |-> k, a |-> ax] : k \in MainDocs, ax \in UsedAxes }
+  \cup (IF "p2" \in Families THEN { [fam |-> "p2", d |-> k, a |-> ax] : k \in MainDocs, ax \in UsedAxes } ELSE {})
+  \cup { [fam |-> f, d |-> k, a |-> "-"] : f \in Families \ {"p1", "p2", "ar", "ar3", "ctx"}, k \in MainDocs }
+  \cup (IF "ctx" \in Families THEN { [fam |-> "ctx", d |-> k, a |-> "-"] : k \in 1..Len(DocSeq) } ELSE {})
   \cup (IF "ar" \in Families THEN { [fam |-> f, d |-> 1, a |-> o] : f \in {"ar", "ar3"}, o \in ArOps } ELSE {})
 
 Expand(s) ==
